@@ -9,6 +9,9 @@ byte was written.
 
 from __future__ import annotations
 
+import decimal
+import fractions
+
 from pymemcache.client.base import Client, PooledClient
 from pymemcache.client.hash import HashClient
 from pymemcache.exceptions import MemcacheIllegalInputError
@@ -179,7 +182,10 @@ class Call:
                     return ("unjudged",)
                 continue
             if not is_int(val):
-                weak = True
+                if isinstance(val, bool):
+                    weak = True  # a bool is an int to Python: rejected, or sent as 0 / 1
+                else:
+                    return ("reject",)  # "non-integers being rejected before sending"
             elif not IN_RANGE[name](val):
                 return ("unjudged",)
         o = self.op
@@ -340,7 +346,8 @@ INT_GOOD = {
     "delta": [0, 1, 2**64 - 1],
     "delay": [0, 1, 2**31],
 }
-NON_INT = [1.5, "1", b"1", None, "1 noreply", "0\r\nflush_all", "0 0 0\r\nflush_all\r\nset k 0", True, [1]]
+NON_INT = [1.5, "1", b"1", None, "1 noreply", "0\r\nflush_all", "0 0 0\r\nflush_all\r\nset k 0", True, [1],
+           0.0, 5.0, 30.0, decimal.Decimal(5), fractions.Fraction(2)]  # not ints, though equal to ints used elsewhere
 CAS_BAD = ["", "1 2", "1\r\nflush_all", b"1 noreply", "١", "١٢٣", "²", "１２３", -1, 1.5, None, b"", "+1"]
 
 
